@@ -28,20 +28,22 @@ BYTE_FAULTS = ["bitflip", "overwrite", "delete_range", "dup_range", "zero_range"
 XML_STRUCT_FAULTS = [
     "el_delete", "el_dup", "el_retag", "el_reorder", "el_move", "text_corrupt", "attr_corrupt", "attr_delete", "attr_add",
     "child_in_simple", "xsi_type_bad", "xsi_type_empty", "xsi_type_unbound", "xsi_nil_true", "xsi_nil_false", "undeclared_prefix",
-    "wrong_root", "dup_attr", "prolog_encoding", "prolog_doctype", "ns_change", "el_dup_many", "nest_self", "text_long", "attr_many",
+    "wrong_root", "dup_attr", "prolog_encoding", "prolog_doctype", "ns_change", "xsi_type_class", "xsi_type_class", "xsi_other_attr", "el_dup_many", "nest_self", "text_long", "attr_many",
 ]
 JSON_STRUCT_FAULTS = ["key_delete", "key_rename", "value_junk", "list_wrap", "list_unwrap", "key_add", "list_grow", "nest_value"]
 XSI_TYPES = ["nosuchtype", "xs:nosuch", "item", "dog", "xs:int", "xs:QName", "xs:date", "xs:hexBinary", "xs:base64Binary", "xs:boolean", "xs:duration", "xs:dateTime", "xs:gYear",
              "xs:decimal", "xs:float", "xs:NMTOKENS", "xs:anyURI", "xs:NOTATION", "xs:time", "xs:unsignedByte", "xs:anyType", "xs:anySimpleType", "xs:string", "xs:language", "xs:IDREFS"]
-JUNK_TEXT = ["+", "-", "1_000", "0x1", "Infinity", "nan", "1e400", " 5 ", "TRUE", "true ", "-P", "P1Y2M3DT", "PT", "2020-01-01T00:00:00+15:00", "0000-01-01", "2020-02-30", "12:00:00.1234567890123", "--02-30", "-0", ".", "1.", "1e", "٣", "٣.٥",
+JUNK_TEXT = ["p:", ":x", "xs:", "xml:lang", "99999999-01-01", "2020-01-01+14:00", "2020-01-01-14:01", "-2020-01-01", "2020-01-01T24:00:00", "2020-01-01T23:59:60", "P1Y-2M", "1e-400", "0" * 400, "-", "+", "-", "1_000", "0x1", "Infinity", "nan", "1e400", " 5 ", "TRUE", "true ", "-P", "P1Y2M3DT", "PT", "2020-01-01T00:00:00+15:00", "0000-01-01", "2020-02-30", "12:00:00.1234567890123", "--02-30", "-0", ".", "1.", "1e", "٣", "٣.٥",
              "", " ", "abc", "-1", "1e999", "NaN", "2020-13-45", "true1", "99999999999999999999999999", "0x10", "p:undeclared", "{", "{urn:x}y", "١٢٣", "1 2 3", "--", "P", "24:00:00", "x" * 300, "\t\n", "1.5.5", "+", "é"]
-JUNK_JSON = [None, True, 0, -1, 1.5, 1e400, "", "abc", [], [[]], [1, [2]], {}, {"a": 1}, {"qname": "q", "type": None, "value": 1}, {"qname": "q", "text": None, "tail": None, "children": [], "attributes": {}}, [None], "9" * 40, {"value": {}}]
+JUNK_JSON = [{"qname": "a", "type": None, "value": {"qname": "b", "type": None, "value": 1}}, {"qname": "a", "type": "{urn:x}dog", "value": [1]}, [None, None], {"": 1}, [{"": {}}], 1e308 * 10, -0.0,
+             None, True, 0, -1, 1.5, 1e400, "", "abc", [], [[]], [1, [2]], {}, {"a": 1}, {"qname": "q", "type": None, "value": 1}, {"qname": "q", "text": None, "tail": None, "children": [], "attributes": {}}, [None], "9" * 40, {"value": {}}]
 
 
 # ---------------------------------------------------------------- stores
 class Store:
     xml = {}
     json = {}
+    qnames = []  # (namespace, local name) of pool classes, for xsi:type faults that name an existing but unrelated class
 
 
 def build_store():
@@ -56,6 +58,15 @@ def build_store():
     for name, (text, ck, needs) in list(C.JSON.items()) + list(core.Z.gen_docs["json"].items()):
         if ck is not None and not needs:
             Store.json[name] = (text, ck)
+    seen = set()
+    for key in sorted(C.CLASSES):
+        cls = C.CLASSES[key]
+        meta = cls.__dict__.get("Meta")
+        ns = getattr(meta, "namespace", None)
+        local = getattr(meta, "name", None) or cls.__name__
+        if ns and (ns, local) not in seen:
+            seen.add((ns, local))
+            Store.qnames.append((ns, local))
 
 
 # ---------------------------------------------------------------- faults
@@ -240,6 +251,18 @@ def apply_xml_struct_fault(data, f):
                 root = new_root
                 el = _elements(root)[idx]
             el.set("{%s}type" % XSI, XSI_TYPES[f["val"] % len(XSI_TYPES)])
+        elif k == "xsi_type_class":
+            if not Store.qnames or el.getparent() is None:
+                return data, False
+            ns, local = Store.qnames[f["val"] % len(Store.qnames)]
+            new_el = etree.Element(el.tag, attrib=dict(el.attrib), nsmap=dict(el.nsmap or {}, xtp=ns))
+            new_el.text, new_el.tail = el.text, el.tail
+            for child in list(el):
+                new_el.append(child)
+            new_el.set("{%s}type" % XSI, "xtp:" + local)
+            el.getparent().replace(el, new_el)
+        elif k == "xsi_other_attr":
+            el.set("{%s}%s" % (XSI, ["foo", "schemaLocation", "noNamespaceSchemaLocation", "Type"][f["val"] % 4]), val)
         elif k == "xsi_type_empty":
             el.set("{%s}type" % XSI, ["", " ", ":"][f["val"] % 3])
         elif k == "xsi_type_unbound":
